@@ -24,19 +24,19 @@ yielded as a redirect entry … -/
 theorem visit_redirect (g : Graph) (o : WalkOpts) (s t : Spec) (st : WalkState)
     (hs : g.slot s = none) (hr : g.redirect s = some t) :
     visit g o s st = (st, some (.redirect t)) := by
-  simp [visit, hs, hr]
+  simp [visit, visitInfo, pushAll, hs, hr]
 
 /-- … and on the next call its target is pushed to the front of the queue. -/
 theorem expandPrev_redirect (o : WalkOpts) (st : WalkState) (s t : Spec)
     (hp : st.prev = some (s, .redirect t)) :
     expandPrev o st = ({ st with prev := none } : WalkState).pushFront t := by
-  simp [expandPrev, hp]
+  simp [expandPrev, hp, succs, pushAll]
 
 /-- a specifier with a slot is yielded with that slot's own entry, whatever the redirect table says -/
 theorem visit_err_slot (g : Graph) (o : WalkOpts) (s : Spec) (st : WalkState) (m c es)
     (hs : g.slot s = some (.err m c es)) :
     visit g o s st = (st, some (.err m c es)) := by
-  simp [visit, hs]
+  simp [visit, visitInfo, pushAll, hs]
 
 /-- what `try_get` should answer at the specifier where the walk stops -/
 def endResult (g : Graph) (e : Spec) : TryGet :=
